@@ -396,6 +396,9 @@ impl PackageBuilder {
             )
         };
 
+        // a file directly below the root lives in "/", not in "//"
+        let dir = if dir == "//" { "/".to_string() } else { dir };
+
         let mut hasher = sha2::Sha256::default();
         hasher.update(&content);
         let hash_result = hasher.finalize();
